@@ -50,6 +50,9 @@ struct Agg {
     found: Vec<Found>,
     known_hits: BTreeMap<String, (u64, String)>,
     violating_runs: BTreeMap<String, u64>,
+    enum_stop_steps: std::collections::BTreeSet<u64>,
+    enum_stop_nodes: std::collections::BTreeSet<u64>,
+    enum_lines: u64,
     other_props: BTreeMap<String, (u64, String)>,
     harness_errors: Vec<String>,
     harness_error_count: u64,
@@ -120,6 +123,29 @@ pub fn run_batch(ctx: &Ctx, cfg: &BatchCfg) -> BatchResult {
                     let mut a = agg.lock().unwrap();
                     a.evaluations += 1;
                     a.distinct_cases.insert(ch);
+                    match &case {
+                        Case::Search(sc) => {
+                            for sp in &sc.searches {
+                                for f in &sp.faults {
+                                    match f.kind {
+                                        crate::search::FaultKind::StopAtStep if f.at <= 64 => {
+                                            a.enum_stop_steps.insert(f.at);
+                                        }
+                                        crate::search::FaultKind::StopAtLocalNode if [1u64, 2, 9_999, 10_000, 10_001, 19_999, 20_000].contains(&f.at) => {
+                                            a.enum_stop_nodes.insert(f.at);
+                                        }
+                                        _ => {}
+                                    }
+                                }
+                            }
+                        }
+                        Case::Uci(uc) if uc.prop == "C14" => {
+                            if (i as usize) < crate::malformed::enumerated_cached().len() {
+                                a.enum_lines += 1;
+                            }
+                        }
+                        _ => {}
+                    }
                     a.distinct_traces.insert(rep.stats.trace_hash);
                     a.distinct_logs.insert(rep.digest);
                     if rep.stats.choice_points > 0 && cases::nontrivial(&case) {
@@ -262,6 +288,11 @@ pub fn run_batch(ctx: &Ctx, cfg: &BatchCfg) -> BatchResult {
                 "discarded_run_examples": a.harness_errors,
                 "real_code": ["weechess-core (all of it)", "weechess-engine: searcher.rs, uci.rs, eval/*, book.rs, embedded opening book"],
                 "stubs": ["rayon (one simulated task per item)", "std::sync / std::thread (shuttle, sequentially consistent)", "clock and sleep (simulated)", "stdin / stdout / stderr (simulated)", "rand::thread_rng (seeded)", "weechess-cli main.rs not executed"],
+                "enumerated": match cfg.prop.as_str() {
+                    "C04" => json!({"stop_at_world_step_0_to_64": {"space": 65, "covered": a.enum_stop_steps.len()}, "stop_at_worker_node_around_polls": {"space": 7, "covered": a.enum_stop_nodes.len(), "values": [1, 2, 9999, 10000, 10001, 19999, 20000]}, "note": "crossed with drawn positions, depths, worker counts, multiplicities and seeded schedules; the remaining instants (global node counts, iteration starts, late world steps) are drawn"}),
+                    "C14" => json!({"malformed_lines": {"space": crate::malformed::enumerated_cached().len(), "covered": a.enum_lines}, "note": "each enumerated line is injected once at a drawn place of a drawn session; further lines are seeded mutations"}),
+                    _ => json!(null),
+                },
                 "exhaustive": false
             },
             "assumptions": crate::assumptions(&cfg.prop),
